@@ -315,6 +315,7 @@ const (
 	behDrop
 	behCancelHdr
 	behCancelBody
+	behCutBody // header, (part of) the body, then the connection is closed before the announced end
 )
 
 type genv struct {
@@ -332,6 +333,7 @@ type gbeh struct {
 	body   []byte
 	class  string
 	long   bool // body larger than 1 KiB
+	cut    int  // behCutBody: 0 Content-Length too large, 1 chunked without last chunk, 2 closed mid-chunk, 3 cut mid-envelope
 }
 
 func (b gbeh) sx() string {
@@ -347,8 +349,10 @@ func (b gbeh) sx() string {
 		return emit.C(1)
 	case behCancelHdr:
 		return emit.C(2)
-	default:
+	case behCancelBody:
 		return emit.C(3, emit.I(b.code))
+	default:
+		return emit.C(4, emit.I(b.code))
 	}
 }
 
@@ -523,6 +527,23 @@ func genBeh(r *emit.Rng, tag int, realServer bool, code int, malformed bool) gbe
 	return b
 }
 
+// the transport fails while the body is read; what had arrived is mostly a complete, valid success envelope
+func genCut(r *emit.Rng, tag int) gbeh {
+	b := gbeh{kind: behCutBody, code: []int{200, 200, 200, 200, 201, 400, 422, 405, 501, 500, 404}[r.Intn(11)], cut: r.Intn(4), class: "cut-body"}
+	e := genEnv(r, []string{"success", "success", "success", "error"}[r.Intn(4)])
+	if e.status == "success" && r.Chance(3, 4) {
+		e.dataKind = 0
+	}
+	b.body = renderEnv(r, e, tag)
+	if b.cut == 3 {
+		b.body = b.body[:1+r.Intn(len(b.body)-1)]
+		b.class = "cut-body-mid-envelope"
+	} else if e.status == "success" && e.dataKind == 0 {
+		b.class = "cut-body-after-complete-success"
+	}
+	return b
+}
+
 func genScript(r *emit.Rng, tag int, realServer bool, malformed bool) []gbeh {
 	n := 1
 	if isFallback(tag) {
@@ -537,6 +558,8 @@ func genScript(r *emit.Rng, tag int, realServer bool, malformed bool) []gbeh {
 			bs[i] = gbeh{kind: behCancelHdr, class: "cancel-hdr"}
 		case x == 2:
 			bs[i] = gbeh{kind: behCancelBody, code: []int{200, 405, 501, 500, 400}[r.Intn(5)], class: "cancel-body"}
+		case x == 3 || x == 4:
+			bs[i] = genCut(r, tag)
 		default:
 			code := 0
 			if i == 0 && n == 2 && r.Chance(2, 5) {
@@ -678,6 +701,26 @@ func (p *peer) handle(w http.ResponseWriter, r *http.Request) {
 		default:
 		}
 		wait()
+	case behCutBody:
+		hj, ok := w.(http.Hijacker)
+		if !ok {
+			return
+		}
+		c, bw, err := hj.Hijack()
+		if err != nil {
+			return
+		}
+		head := fmt.Sprintf("HTTP/1.1 %d Scripted\r\nContent-Type: application/json\r\n", b.code)
+		switch b.cut {
+		case 0, 3:
+			fmt.Fprintf(bw, "%sContent-Length: %d\r\n\r\n%s", head, len(b.body)+17, b.body)
+		case 1:
+			fmt.Fprintf(bw, "%sTransfer-Encoding: chunked\r\n\r\n%x\r\n%s\r\n", head, len(b.body), b.body)
+		default:
+			fmt.Fprintf(bw, "%sTransfer-Encoding: chunked\r\n\r\n%x\r\n%s", head, len(b.body)+50, b.body)
+		}
+		bw.Flush()
+		c.Close()
 	case behCancelBody:
 		w.Header().Set("Content-Type", "application/json")
 		w.WriteHeader(b.code)
@@ -752,6 +795,8 @@ func (f *fakeClient) Do(ctx context.Context, req *http.Request) (*http.Response,
 	case behCancelHdr:
 		f.done = true
 		return nil, nil, context.Canceled
+	case behCutBody:
+		return &http.Response{StatusCode: b.code, Body: io.NopCloser(strings.NewReader(""))}, b.body, io.ErrUnexpectedEOF
 	default:
 		f.done = true
 		return &http.Response{StatusCode: b.code, Body: io.NopCloser(strings.NewReader(""))}, []byte(`{"status":"succ`), context.Canceled
@@ -873,7 +918,7 @@ func addCase(w *emit.Writer, fails *[]failure, c gcall, prefix string, behs []gb
 			plain = false
 		}
 		if i == 0 && len(behs) == 2 {
-			if b.kind == behResp && (b.code == 405 || b.code == 501) {
+			if (b.kind == behResp || b.kind == behCutBody) && (b.code == 405 || b.code == 501) {
 				tags = append(tags, "fallback/taken")
 			} else {
 				tags = append(tags, "fallback/not-taken")
@@ -981,7 +1026,7 @@ func runC16(c *cli.Ctx) error {
 			call := genCall(r, tag, false)
 			behs := genScript(r, tag, false, false)
 			behs[0] = []gbeh{{kind: behDrop, class: "drop"}, {kind: behCancelHdr, class: "cancel-hdr"},
-				{kind: behCancelBody, code: []int{200, 405, 501}[r.Intn(3)], class: "cancel-body"}}[r.Intn(3)]
+				{kind: behCancelBody, code: []int{200, 405, 501}[r.Intn(3)], class: "cancel-body"}, genCut(r, tag)}[r.Intn(4)]
 			pre := r.Chance(1, 5)
 			out := rn.run(call, "", behs, pre, true)
 			addCase(w, &fails, call, "", behs, pre, true, out)
